@@ -63,16 +63,17 @@ def statement(ctx, rows_in, out, err, form):
     return True
 
 
-def run_list(rows, batch_size, as_dict, ids=None):
+def run_list(rows, batch_size, as_dict, ids=None, cols=None):
     import copy
 
     from synrbl import Balancer
 
-    b = Balancer(n_jobs=1, batch_size=batch_size)
-    data = [{"reaction": x, "tag": i} for i, x in enumerate(rows)] if as_dict else copy.deepcopy(rows)
+    rc, ic = cols or ("reaction", "id")
+    b = Balancer(n_jobs=1, batch_size=batch_size, reaction_col=rc, id_col=ic)
+    data = [{rc: x, "tag": i} for i, x in enumerate(rows)] if as_dict else copy.deepcopy(rows)
     if ids is not None:  # rows that carry their own value in the column the tool uses as id
         for d, v in zip(data, ids):
-            d["id"] = v
+            d[ic] = v
     try:
         return b.rebalance(data, output_dict=True), None
     except Exception as e:
@@ -196,6 +197,14 @@ def explore(ctx, seqs, stop_on_first=False):
             out, err = run_list(rows, bs, as_dict=True)
             if not statement(ctx, rows, out, err, "dict") and stop_on_first:
                 return
+        # caller-chosen column names (a configuration), with and without the caller's own ids in the id column
+        bs = ctx.rng.choice([None, 1, 2, n])
+        out, err = run_list(rows, bs, as_dict=True, cols=("rxn", "rid"))
+        if not statement(ctx, rows, out, err, "dict+columns") and stop_on_first:
+            return
+        out, err = run_list(rows, bs, as_dict=True, ids=[50 - i for i in range(n)], cols=("rxn", "rid"))
+        if not statement(ctx, rows, out, err, "dict+columns+id") and stop_on_first:
+            return
         # the caller's own `id` column (1-based, reversed, arbitrary strings): it must not steer where results are written
         idforms = [[i + 1 for i in range(n)], list(range(n))[::-1], ["r%d" % (7 * i) for i in range(n)]]
         if ctx.tier == "quick":
@@ -227,7 +236,7 @@ def run(ctx):
         "SMILES, no '>>', 'A>B>C', two '>>', empty sides/string, single '>', None, NaN, a number) at seeded positions plus every "
         "kind at every position of a 3-row list, every ordered pair of 7 rejected kinds side by side between valid rows, and lists "
         "with 2..n-1 rejected rows of mixed kinds; each list run as list of SMILES and as list of dicts under batch sizes "
-        "{None,1,2,n,n+1}; CSV through the command-line entry point with pass-through columns (an ordinary one and columns "
+        "{None,1,2,n,n+1}, and as dicts under caller-chosen column names (reaction_col='rxn', id_col='rid', with and without own ids); CSV through the command-line entry point with pass-through columns (an ordinary one and columns "
         "named like the pipeline's working columns: id, products, reactants, 'Unnamed: 0'); the DataLoader slicing is "
         "compared with the Lean `chunks` model (non-trivial = list with a malformed row; distinct by form and list)",
         ["a bare None/number inside a *list of SMILES* is rejected by the dataset constructor (type error), so those kinds are "
